@@ -92,6 +92,7 @@ type AMF struct {
 	gtp  [4]byte
 
 	ngSetupDone bool
+	tacs        [][3]byte
 	announced   [3]byte
 	ues         []*ue
 	byRAN       map[uint64]*ue
@@ -179,6 +180,11 @@ func (a *AMF) obs(format string, args ...interface{}) {
 	}
 }
 
+// ne records a deviation that the properties deliberately do not judge (DESIGN.md 3.5).
+func (a *AMF) ne(label, format string, args ...interface{}) {
+	a.obs("not enforced [%s]: %s", label, fmt.Sprintf(format, args...))
+}
+
 func (a *AMF) viol(key, format string, args ...interface{}) *Violation {
 	v := &Violation{Key: key, Msg: fmt.Sprintf(format, args...)}
 	if a.Violation == nil {
@@ -249,7 +255,7 @@ func (a *AMF) handle(ul []byte) (out []dlMsg, what string, v *Violation) {
 		case "missing", "duplicate":
 			return nil, what, a.viol("ngap-ie-"+f.Kind+":"+what, "%s", f.Text)
 		default:
-			a.obs("%s: %s", f.Kind, f.Text)
+			a.ne("ngap-"+f.Kind, "%s", f.Text)
 		}
 	}
 	if !a.ngSetupDone && spec.Name != "NGSetupRequest" {
@@ -303,6 +309,7 @@ func (a *AMF) onNGSetup(p *iewalk.PDU) ([]dlMsg, *Violation) {
 	}
 	served := false
 	for _, ta := range tas {
+		a.tacs = append(a.tacs, ta.TAC)
 		for _, bp := range ta.PLMNs {
 			a.notePLMN(bp.PLMN)
 			if bp.PLMN == iewalk.PLMN(a.plmn) {
@@ -651,8 +658,20 @@ func (a *AMF) onServiceRequest(u *ue, nas []byte, what string) ([]dlMsg, string,
 	}
 	a.obs("Service Request arrives in an InitialUEMessage while this AMF still holds the UE's N2 context; the UE is found by its RAN-UE-NGAP-ID and proven by the NAS MAC")
 	a.obs("service type=%d ngKSI=%d (AMF assigned %d) 5G-S-TMSI raw=%x (assigned GUTI %x); optional IEs outside a NAS message container: %s", m.ServiceType, m.NgKSI, u.ch.NgKSI, m.Identity.Raw, u.guti, ieiList(m.Opt))
+	if m.NgKSI != u.ch.NgKSI {
+		a.ne("service-ngksi", "ngKSI %d in the Service Request, the AMF assigned %d", m.NgKSI, u.ch.NgKSI)
+	}
+	if len(m.Identity.Raw) != 7 || m.Identity.Type != 4 || !bytes.Equal(m.Identity.Raw[1:], u.guti[5:]) {
+		a.ne("service-5g-s-tmsi", "5G-S-TMSI %x (type of identity %d) is not the one of the assigned 5G-GUTI %x", m.Identity.Raw, m.Identity.Type, u.guti)
+	}
 	if ie := findIE(m.Opt, 0x40); ie != nil {
 		a.obs("uplink data status=%x (session identity of this UE: %d, state %d)", ie.Value, u.psi, u.sess)
+		if len(ie.Value) == 2 && u.sess == ssActive && !(u.psi < 16 && ie.Value[u.psi/8]&(1<<uint(u.psi%8)) != 0) {
+			a.ne("uplink-data-status", "uplink data status %x does not name the UE's active session %d", ie.Value, u.psi)
+		}
+	}
+	if len(m.Opt) > 0 {
+		a.ne("cleartext-ies", "Service Request carries optional IEs %s outside a NAS message container", ieiList(m.Opt))
 	}
 	var status []byte
 	if u.ch.Has(OptSvcPDUStatus) {
@@ -834,6 +853,9 @@ func (a *AMF) onUplinkNAS(p *iewalk.PDU) ([]dlMsg, string, *Violation) {
 			return nil, what, a.viol("nas-decode", "%s: %v", what, err)
 		}
 		a.obs("de-registration type=0x%x ngKSI=%d (AMF assigned %d)", m.DeregType, m.NgKSI, u.ch.NgKSI)
+		if m.NgKSI != u.ch.NgKSI {
+			a.ne("dereg-ngksi", "ngKSI %d in the De-registration Request, the AMF assigned %d", m.NgKSI, u.ch.NgKSI)
+		}
 		switch m.Identity.Type {
 		case 1:
 			if m.Identity.SUPIFormat == 0 {
@@ -893,7 +915,13 @@ func (a *AMF) onULNASTransport(u *ue, plain []byte, what string) ([]dlMsg, strin
 	}
 	a.obs("PSI=%d PTI=%d request type=%d(%v) DNN=%q", sm.SMPSI, sm.SMPTI, m.ReqType, m.HasReqType, m.DNN)
 	if sm.SMPSI < 1 || sm.SMPSI > 15 {
-		a.obs("PDU session identity %d is outside 1..15 (TS 24.007 11.2.3.1b)", sm.SMPSI)
+		a.ne("psi-outside-1..15", "PDU session identity %d is outside 1..15 (TS 24.007 11.2.3.1b)", sm.SMPSI)
+	}
+	if sm.SMPTI == 0 {
+		a.ne("pti-0", "procedure transaction identity 0 (unassigned, TS 24.501 7.3.1) in %s; echoed", MTName(sm.Type))
+	}
+	if m.DNN != nil && (len(m.DNN) == 0 || !labelsOK(m.DNN)) {
+		a.ne("dnn-coding", "DNN %q is not coded as length-prefixed labels", m.DNN)
 	}
 	switch sm.Type {
 	case MTPDUSessionEstRequest:
@@ -969,9 +997,6 @@ func (a *AMF) onULNASTransport(u *ue, plain []byte, what string) ([]dlMsg, strin
 		}
 		if sm.SMPSI != u.psi {
 			return nil, what, a.viol("psi-inconsistent", "%s: release of PDU session %d, the UE's session was established as %d", what, sm.SMPSI, u.psi)
-		}
-		if sm.SMPTI == 0 {
-			a.obs("PTI 0 (unassigned, TS 24.501 7.3.1) in a UE-requested release; echoed")
 		}
 		cause := u.ch.ReleaseCause
 		if cause <= 0 {
@@ -1077,7 +1102,7 @@ func (a *AMF) onICSResponse(p *iewalk.PDU) (string, *Violation) {
 	case u.pendingSvcICS:
 		u.pendingSvcICS = false
 		if len(items) > 0 && !(u.ch.Has(OptSvcReactivate) && u.sess == ssActive) {
-			a.obs("the response lists %d session(s) although the request carried no PDUSessionResourceSetupListCxtReq", len(items))
+			a.ne("unsolicited-cxtres-list", "the response lists %d session(s) although the request carried no PDUSessionResourceSetupListCxtReq", len(items))
 		}
 		for _, it := range items {
 			if u.sess == ssActive || u.sess == ssReleasePending {
@@ -1181,6 +1206,9 @@ func (a *AMF) onCtxReleaseComplete(p *iewalk.PDU) (string, *Violation) {
 			a.notePLMN(ul.NR.NRCGIPLMN)
 			a.notePLMN(ul.NR.TAIPLMN)
 			a.obs("ULI plmn=%x/%x tac=%x", ul.NR.NRCGIPLMN[:], ul.NR.TAIPLMN[:], ul.NR.TAC)
+			if !a.tacAnnounced(ul.NR.TAC) {
+				a.ne("tac-not-announced", "UE Context Release Complete reports TAC %x, which NG Setup did not announce", ul.NR.TAC)
+			}
 			if ul.NR.NRCGIPLMN != iewalk.PLMN(a.announced) || ul.NR.TAIPLMN != iewalk.PLMN(a.announced) {
 				return what, a.viol(fmt.Sprintf("plmn-mismatch:mnc%d", len(a.sc.Prov.MNC)), "%s: user location carries PLMN %x / %x, NG Setup announced %x", what, ul.NR.NRCGIPLMN[:], ul.NR.TAIPLMN[:], a.announced[:])
 			}
@@ -1295,4 +1323,24 @@ func ieiList(l []OptIE) string {
 		out = append(out, fmt.Sprintf("0x%02x", ie.IEI))
 	}
 	return fmt.Sprint(out)
+}
+
+func (a *AMF) tacAnnounced(t [3]byte) bool {
+	for _, x := range a.tacs {
+		if x == t {
+			return true
+		}
+	}
+	return false
+}
+
+func labelsOK(b []byte) bool {
+	for i := 0; i < len(b); {
+		n := int(b[i])
+		if n == 0 || i+1+n > len(b) {
+			return false
+		}
+		i += 1 + n
+	}
+	return true
 }
